@@ -85,7 +85,7 @@ Print Assumptions C17_spec_accepts_model.
    with an int, the first one's started validation phase is still finished
    (with the failure as outcome), execution never starts, one error. *)
 Example C17_nonvacuous :
-  do_model (CExec false [Node 0 ROk TNow []])
+  do_model (CExec false [Node 0 false ROk TNow []])
     [mkExt 1 BOk (SFn BOk) (SFn BOk) (SFn BOk) [] HTrue BOk;
      mkExt 2 BOk (SFn BOk) (SPanic PVInt) (SFn BOk) [] HTrue BOk] =
   Done [EInit 0 true; EInit 1 true;
@@ -97,7 +97,7 @@ Proof. reflexivity. Qed.
    a's notification is finished when its resolver returns, c runs next, b runs
    when a's value is forced; every finish is told its own field (2*id). *)
 Example C17_deferred_order :
-  do_model (CExec false [Node 0 ROk TLater [Node 1 ROk TNow []]; Node 2 ROk TNow []])
+  do_model (CExec false [Node 0 false ROk TLater [Node 1 false ROk TNow []]; Node 2 false ROk TNow []])
     [mkExt 1 BOk (SFn BOk) (SFn BOk) (SFn BOk) [] HFalse BOk] =
   Done [EInit 0 true; EStart 0 PParse SROk; EFinish 0 PParse 0 true;
         EStart 0 PValid SROk; EFinish 0 PValid 0 true; EStart 0 PExec SROk;
